@@ -63,6 +63,11 @@ func NewCapturer(opt quicworld.Options) (*Capturer, error) {
 // Dial makes one dial that is given `window` of virtual time, closes the connection if there is
 // one, lets the network settle and returns what was captured.
 func (c *Capturer) Dial(window, settle time.Duration) DialCapture {
+	return c.DialName("localhost", window, settle)
+}
+
+// DialName is Dial with the TLS server name of this dial (the certificate covers localhost and c0.test ... c15.test).
+func (c *Capturer) DialName(name string, window, settle time.Duration) DialCapture {
 	c.mu.Lock()
 	c.dg, c.tm, c.sv, c.t0 = nil, nil, -1, c.W.Router.Now()
 	c.mu.Unlock()
@@ -75,7 +80,7 @@ func (c *Capturer) Dial(window, settle time.Duration) DialCapture {
 			accepted <- sc
 		}()
 	}
-	conn, err := c.W.Dial(ctx)
+	conn, err := c.W.DialName(ctx, name)
 	res := DialCapture{Err: err, TimedOut: err != nil && ctx.Err() != nil && context.Cause(ctx) == err}
 	if conn != nil {
 		// let the handshake be confirmed before closing (closing in the very instant Dial returns
